@@ -319,7 +319,14 @@ func (P *Prog) callMods(com *ssa.CallCommon) []string {
 		}
 	}
 	if key == "" {
-		add(sortedKeys(P.allWrittenHeaps()))
+		cands := P.fvCandidates(com.Signature())
+		if len(cands) == 0 || P.modsets == nil {
+			add(sortedKeys(P.allWrittenHeaps()))
+			return sortedKeys(out)
+		}
+		for _, c := range cands {
+			add(sortedKeys(P.modsets[c.fn]))
+		}
 		return sortedKeys(out)
 	}
 	if c, ok := P.Spec.Contracts[key]; ok {
@@ -337,8 +344,8 @@ func (P *Prog) callMods(com *ssa.CallCommon) []string {
 		return sortedKeys(out)
 	}
 	if com.IsInvoke() && inModule(com.Method.Pkg()) {
-		for _, f := range P.implementations(com.Method) {
-			add(sortedKeys(P.modsetOf(f)))
+		for _, it := range P.implementations(com.Method) {
+			add(sortedKeys(P.modsetOf(it.fn)))
 		}
 		return sortedKeys(out)
 	}
@@ -434,42 +441,157 @@ func (P *Prog) allWrittenHeaps() map[string]bool {
 	return allWritten
 }
 
-// implementations returns the module methods that may be the target of invoking m.
-func (P *Prog) implementations(m *types.Func) []*ssa.Function {
+type implTarget struct {
+	fn   *ssa.Function // the declared method
+	dyn  types.Type    // dynamic type of the interface value
+	path []int         // field path from the dynamic value to the receiver of fn (embedding)
+}
+
+// implementations returns the module methods that may be the target of invoking m, per dynamic type.
+func (P *Prog) implementations(m *types.Func) []implTarget {
 	key := m.FullName()
 	if r, ok := P.implCache[key]; ok {
 		return r
 	}
 	recv := m.Type().(*types.Signature).Recv()
-	var out []*ssa.Function
+	var out []implTarget
 	if recv != nil {
 		if iface, ok := types.Unalias(recv.Type()).Underlying().(*types.Interface); ok {
 			for _, t := range P.concreteTypes() {
 				for _, tt := range []types.Type{t, types.NewPointer(t)} {
-					if types.Implements(tt, iface) {
-						sel := P.SSA.MethodSets.MethodSet(tt).Lookup(m.Pkg(), m.Name())
-						if sel == nil {
-							continue
-						}
-						if f := P.SSA.MethodValue(sel); f != nil {
-							// unwrap synthetic wrappers to the declared method
-							if f.Synthetic != "" {
-								if obj, ok := sel.Obj().(*types.Func); ok {
-									if df := P.SSA.FuncValue(obj); df != nil {
-										f = df
-									}
-								}
-							}
-							out = append(out, f)
-						}
-						break
+					if !types.Implements(tt, iface) {
+						continue
 					}
+					obj, path, _ := types.LookupFieldOrMethod(tt, true, m.Pkg(), m.Name())
+					f, ok := obj.(*types.Func)
+					if !ok {
+						continue
+					}
+					df := P.SSA.FuncValue(f)
+					if df == nil {
+						continue
+					}
+					out = append(out, implTarget{fn: df, dyn: tt, path: path[:len(path)-1]})
+					break
 				}
 			}
 		}
 	}
 	P.implCache[key] = out
 	return out
+}
+
+type fvCand struct {
+	fn    *ssa.Function
+	bound bool // the function value is a method value: receiver bound in the closure
+}
+
+// fvCandidates lists the module functions of the given signature whose address is taken somewhere
+// (method values, function literals, functions used as values).
+func (P *Prog) fvCandidates(sig *types.Signature) []fvCand {
+	if P.fvAll == nil {
+		P.fvAll = map[*ssa.Function]bool{}
+		P.fvBound = map[*ssa.Function]bool{}
+		for _, fn := range P.allBodies() {
+			for _, b := range fn.Blocks {
+				for _, ins := range b.Instrs {
+					if mc, ok := ins.(*ssa.MakeClosure); ok {
+						if f, ok := mc.Fn.(*ssa.Function); ok {
+							if strings.HasSuffix(f.Name(), "$bound") {
+								if real, ok := P.Funcs[funcKey(f)]; ok {
+									P.fvAll[real] = true
+									P.fvBound[real] = true
+								}
+							} else {
+								P.fvAll[f] = true
+							}
+						}
+					}
+					var ops []*ssa.Value
+					for _, op := range ins.Operands(ops) {
+						if op == nil || *op == nil {
+							continue
+						}
+						if f, ok := (*op).(*ssa.Function); ok {
+							if c, isCall := ins.(ssa.CallInstruction); isCall && c.Common().Value == f {
+								continue
+							}
+							if _, isMC := ins.(*ssa.MakeClosure); isMC {
+								continue
+							}
+							P.fvAll[f] = true
+						}
+					}
+				}
+			}
+		}
+	}
+	var out []fvCand
+	for f := range P.fvAll {
+		fs := f.Signature
+		if !sameParamsResults(fs, sig) {
+			continue
+		}
+		out = append(out, fvCand{fn: f, bound: P.fvBound[f]})
+	}
+	sort.Slice(out, func(i, j int) bool { return funcKey(out[i].fn) < funcKey(out[j].fn) })
+	return out
+}
+
+func sameParamsResults(a, b *types.Signature) bool {
+	if a.Params().Len() != b.Params().Len() || a.Results().Len() != b.Results().Len() || a.Variadic() != b.Variadic() {
+		return false
+	}
+	for i := 0; i < a.Params().Len(); i++ {
+		if !types.Identical(a.Params().At(i).Type(), b.Params().At(i).Type()) {
+			return false
+		}
+	}
+	for i := 0; i < a.Results().Len(); i++ {
+		if !types.Identical(a.Results().At(i).Type(), b.Results().At(i).Type()) {
+			return false
+		}
+	}
+	return true
+}
+
+func (P *Prog) allBodies() []*ssa.Function {
+	var fns []*ssa.Function
+	seen := map[*ssa.Function]bool{}
+	var rec func(f *ssa.Function)
+	rec = func(f *ssa.Function) {
+		if seen[f] {
+			return
+		}
+		seen[f] = true
+		if len(f.Blocks) > 0 {
+			fns = append(fns, f)
+		}
+		for _, an := range f.AnonFuncs {
+			rec(an)
+		}
+	}
+	var keys []string
+	for k := range P.Funcs {
+		keys = append(keys, k)
+	}
+	sort.Strings(keys)
+	for _, k := range keys {
+		rec(P.Funcs[k])
+	}
+	return fns
+}
+
+func (P *Prog) fnID(key string) int {
+	if P.fnIDs == nil {
+		P.fnIDs = map[string]int{}
+	}
+	if id, ok := P.fnIDs[key]; ok {
+		return id
+	}
+	id := len(P.fnIDs) + 1
+	P.fnIDs[key] = id
+	return id
 }
 
 func (P *Prog) concreteTypes() []types.Type {
